@@ -1,9 +1,20 @@
-(* C16 — Built-in cost models are finite, non-negative and monotone in layer size.  (first slice) *)
+(* C16 — Built-in cost models are finite, non-negative and monotone in layer size.
+   Statements only (proofs: Base/Expr.v, Proofs/CostFns.v; models: Base/Expr.v, Model/CostFns.v and the
+   file Gen/CostGen.v that the check regenerates from plinio/cost/*.py on every run).
+
+   Finite: every model value is a rational number (total functions into Q); None = the function raises.
+   The nine closed-form files are covered by REFLECTION: C16_expr_mono_nonneg / C16_expr_positive hold
+   for EVERY term of the embedding and ALL rational environments; Gen/CostGen.v carries, for each
+   registered function <f>, the obligations  <f>_ok : okb (cf_body <f>) = true  and
+   <f>_pos : posb lo_nonempty (cf_body <f>) = true  (vm_compute) and their corollaries
+   <f>_mono_nonneg / <f>_positive, plus <spec>_conv{1d,2d}_dw_eq_generic (ring).  The check counts those
+   as obligations of this property.  NE16 and DIANA are proved by hand below. *)
 From Coq Require Import QArith Qround ZArith List.
 Import ListNotations.
-Require Import Plinio.Base.Qx Plinio.Base.Expr.
+Require Import Plinio.Base.Qx Plinio.Base.Expr Plinio.Model.CostFns Plinio.Proofs.CostFns.
 Open Scope Q_scope.
 
+(* ---- reflection: any translated cost function, all rational (also fractional / relaxed) arguments *)
 Theorem C16_expr_mono_nonneg : forall e, okb e = true ->
   forall r r', (forall i, 0 <= r i) -> (forall i, r i <= r' i) -> 0 <= eval r e /\ eval r e <= eval r' e.
 Proof. exact expr_mono_nonneg. Qed.
@@ -12,5 +23,155 @@ Theorem C16_expr_positive : forall lo e, posb lo e = true ->
   forall r r', (forall i, lo i <= r i) -> (forall i, r i <= r' i) -> 0 < eval r e /\ eval r e <= eval r' e.
 Proof. exact expr_pos. Qed.
 
+(* the analysis behind both: a lower bound on {r | lo <= r} that exists only on the monotone fragment *)
+Theorem C16_lbq_sound : forall lo e l, lbq lo e = Some l ->
+  forall r r', (forall i, lo i <= r i) -> (forall i, r i <= r' i) -> l <= eval r e /\ eval r e <= eval r' e.
+Proof. exact lbq_sound. Qed.
+
+(* look-up tables (MPIC): monotone in both precisions and non-negative whenever the table check passes *)
+Theorem C16_lut_mono : forall t a a' w w', lut_okb t = true -> a <= a' -> w <= w' ->
+  0 <= step2 t a w [] /\ step2 t a w [] <= step2 t a' w' [].
+Proof. intros. split; [apply step2_nonneg|apply step2_mono]; assumption. Qed.
+
+Example C16_expr_instance :   (* gap8-like: ceil(cout/4) * (5 + cin*k0) *)
+  okb (EMul (EFloor (EDiv (ESub (EAdd (EVar 1) (EConst 4)) (EConst 1)) (EConst 4))) (EAdd (EConst 5) (EMul (EVar 0) (EVar 2)))) = true
+  /\ posb lo_nonempty (EMul (EFloor (EDiv (ESub (EAdd (EVar 1) (EConst 4)) (EConst 1)) (EConst 4))) (EAdd (EConst 5) (EMul (EVar 0) (EVar 2)))) = true
+  /\ okb (ESub (EVar 0) (EVar 1)) = false /\ okb (EDiv (EVar 0) (EVar 1)) = false.
+Proof. vm_compute. repeat split; reflexivity. Qed.
+
+(* ---- rounding helpers: exact on integers; what they compute on fractions *)
+Theorem C16_floor_ste_exact : forall z n, exists c : Z,
+  floor_ste (inject_Z z) (inject_Z (Zpos n)) = inject_Z c /\ ((c - 1) * Zpos n < z <= c * Zpos n)%Z.
+Proof. exact floor_ste_exact. Qed.
+
+Theorem C16_div_and_ceil_exact : forall z n, exists c : Z,
+  div_and_ceil (inject_Z z) (inject_Z (Zpos n)) == inject_Z c /\ ((c - 1) * Zpos n < z <= c * Zpos n)%Z.
+Proof. exact div_and_ceil_exact. Qed.
+
+Theorem C16_floor_divide_exact : forall z n, floor_divide (inject_Z z) (inject_Z (Zpos n)) = inject_Z (z / Zpos n).
+Proof. exact floor_divide_exact. Qed.
+
+Theorem C16_modulo_exact : forall z n, modulo (inject_Z z) (inject_Z (Zpos n)) == inject_Z (z mod Zpos n).
+Proof. exact modulo_exact. Qed.
+
+Theorem C16_gate_exact : forall ch th, (th <= ch -> gate ch th = 1) /\ (ch < th -> gate ch th = 0).
+Proof. exact gate_exact. Qed.
+
+Theorem C16_floor_ste_on_fractions : forall ch n, 0 < n ->
+  (floor_ste ch n - 1) * n + 1 <= ch /\ ch < floor_ste ch n * n + 1.
+Proof. exact floor_ste_spec. Qed.
+
+Example C16_floor_ste_fraction : floor_ste (17 # 4) 4 == 1.   (* not the ceiling 2: relaxed counts round down *)
+Proof. exact floor_ste_fraction_example. Qed.
+
+(* ---- NE16 *)
+Theorem C16_ne16_tiling_mono : forall (I I' : Q -> Q) B, 0 < B ->
+  (forall k k', 0 <= k -> k <= k' -> k' <= B -> 0 <= I k /\ I k <= I' k') ->
+  forall Ko Ko', 0 <= Ko -> Ko <= Ko' -> 0 <= body_rem I B Ko /\ body_rem I B Ko <= body_rem I' B Ko'.
+Proof. exact body_rem_mono. Qed.
+
+Theorem C16_ne16_latency_mono : forall kd wb wb' H H' W W' Ko Ko' Ki Ki',
+  0 <= wb -> wb <= wb' -> 0 <= H -> H <= H' -> 0 <= W -> W <= W' -> 0 <= Ko -> Ko <= Ko' -> 0 <= Ki -> Ki <= Ki' ->
+  0 <= ne16_lat kd wb H W Ko Ki /\ ne16_lat kd wb H W Ko Ki <= ne16_lat kd wb' H' W' Ko' Ki'.
+Proof. exact ne16_lat_mono. Qed.
+
+Theorem C16_ne16_latency_pos : forall kd wb H W Ko Ki, 0 <= wb -> 1 <= H -> 1 <= W -> 0 < Ko -> 0 <= Ki ->
+  13 <= ne16_lat kd wb H W Ko Ki.
+Proof. exact ne16_lat_pos. Qed.
+
+Theorem C16_ne16_conv2d_generic_mono : forall r r' c c', ne16_le r r' -> same_kernel r r' -> out_le r r' ->
+  ne16_conv2d_generic r = Some c -> ne16_conv2d_generic r' = Some c' -> 0 <= c /\ c <= c'.
+Proof. exact ne16_conv2d_generic_mono. Qed.
+
+Theorem C16_ne16_conv2d_dw_mono : forall r r' c c', ne16_le r r' -> same_kernel r r' -> out_le r r' ->
+  ne16_conv2d_dw r = Some c -> ne16_conv2d_dw r' = Some c' -> 0 <= c /\ c <= c'.
+Proof. exact ne16_conv2d_dw_mono. Qed.
+
+Theorem C16_ne16_linear_mono : forall r r' c c', ne16_le r r' ->
+  ne16_linear r = Some c -> ne16_linear r' = Some c' -> 0 <= c /\ c <= c'.
+Proof. exact ne16_linear_mono. Qed.
+
+Theorem C16_ne16_conv2d_generic_pos : forall r c, 0 < r V_wp -> 0 < r V_theta -> 0 < r V_cout -> 0 <= r V_cin ->
+  1 <= r V_o2 -> 1 <= r V_o3 -> kernel_3x3_or_1x1 r -> ne16_conv2d_generic r = Some c -> 0 < c.
+Proof. exact ne16_conv2d_generic_pos. Qed.
+
+Theorem C16_ne16_conv2d_dw_pos : forall r c, 0 < r V_wp -> 0 < r V_theta -> 0 < r V_cout -> 0 <= r V_cin ->
+  1 <= r V_o2 -> 1 <= r V_o3 -> kernel_3x3_or_1x1 r -> ne16_conv2d_dw r = Some c -> 0 < c.
+Proof. exact ne16_conv2d_dw_pos. Qed.
+
+Theorem C16_ne16_linear_pos : forall r c, 0 < r V_wp -> 0 < r V_theta -> 0 < r V_cout -> 0 <= r V_cin ->
+  ne16_linear r = Some c -> 0 < c.
+Proof. exact ne16_linear_pos. Qed.
+
+(* rejection: exactly the non-pruned layers whose activation precision is not 8 or whose kernel shape the
+   accelerator does not run (kernel_ok is the assert of the respective wrapper) *)
+Theorem C16_ne16_reject : forall dw kernel_ok k0 k1 H W r,
+  ne16_wrapper dw kernel_ok k0 k1 H W r = None <->
+  (~ r V_wp == 0 /\ ~ r V_theta == 0 /\ (~ r V_ip == 8 \/ kernel_ok = false)).
+Proof. exact ne16_wrapper_reject. Qed.
+
+Example C16_ne16_instance :
+  show (ne16_conv2d_generic (env_of [8; 16; 3; 3; 5; 7; 8; 8; 1; 1; 1])) = Some (1266, 1)%Z /\
+  ne16_conv2d_generic (env_of [8; 16; 5; 5; 5; 7; 8; 8; 1; 1; 1]) = None /\
+  ne16_conv2d_generic (env_of [8; 16; 3; 3; 5; 7; 8; 4; 1; 1; 1]) = None /\
+  ne16_le (env_of [8; 16; 3; 3; 5; 7; 4; 8; 1; 1; 1 # 2]) (env_of [9; 33; 3; 3; 5; 7; 8; 8; 1; 1; 1 # 2]).
+Proof. repeat split; vm_compute; try reflexivity; try discriminate. Qed.
+
+(* ---- DIANA *)
+Theorem C16_diana_unroll_antitone : forall ce ce' ci ci' kx kx' ky ky',
+  0 <= ce -> ce <= ce' -> 0 <= ci -> ci <= ci' -> 0 <= kx -> kx <= kx' -> 0 <= ky -> ky <= ky' ->
+  1 <= ox_unroll ce' ci' kx' ky' /\ ox_unroll ce' ci' kx' ky' <= ox_unroll ce ci kx ky.
+Proof. exact ox_unroll_antitone. Qed.
+
+Theorem C16_diana_conv2d_mono : forall r r' c c', diana_le r r' -> out_le r r' ->
+  diana_conv2d_generic r = Some c -> diana_conv2d_generic r' = Some c' -> 0 <= c /\ c <= c'.
+Proof. exact diana_conv2d_generic_mono. Qed.
+
+Theorem C16_diana_linear_mono : forall r r' c c', diana_le r r' ->
+  diana_linear r = Some c -> diana_linear r' = Some c' -> 0 <= c /\ c <= c'.
+Proof. exact diana_linear_mono. Qed.
+
+Theorem C16_diana_conv2d_pos : forall r c, 0 < r V_groups -> 1 <= r V_cin -> 1 <= r V_cout -> 1 <= r V_k0 -> 1 <= r V_k1 ->
+  1 <= r V_o2 -> 1 <= r V_o3 -> diana_conv2d_generic r = Some c -> 0 < c.
+Proof. exact diana_conv2d_generic_pos. Qed.
+
+Theorem C16_diana_linear_pos : forall r c, 1 <= r V_cin -> 1 <= r V_cout -> diana_linear r = Some c -> 0 < c.
+Proof. exact diana_linear_pos. Qed.
+
+Theorem C16_diana_reject : forall wp ap g ci co kx ky ox oy,
+  diana_dispatch wp ap ci co g kx ky ox oy = None <->
+  ((wp == 2 /\ ap == 8 /\ ~ g == 1) \/ (~ (wp == 2 /\ ap == 8) /\ ~ (wp == 8 /\ ap == 8))).
+Proof. exact diana_dispatch_reject. Qed.
+
+Example C16_diana_instance :
+  show (diana_conv2d_generic (env_of [8; 16; 3; 3; 5; 7; 8; 8; 1; 1; 1])) = Some (609, 1)%Z /\
+  diana_conv2d_generic (env_of [8; 16; 3; 3; 5; 7; 4; 8; 1; 1; 1]) = None /\
+  diana_conv2d_generic (env_of [8; 16; 3; 3; 5; 7; 2; 8; 1; 2; 1]) = None.
+Proof. repeat split; vm_compute; reflexivity. Qed.
+
 Print Assumptions C16_expr_mono_nonneg.
 Print Assumptions C16_expr_positive.
+Print Assumptions C16_lbq_sound.
+Print Assumptions C16_lut_mono.
+Print Assumptions C16_floor_ste_exact.
+Print Assumptions C16_div_and_ceil_exact.
+Print Assumptions C16_floor_divide_exact.
+Print Assumptions C16_modulo_exact.
+Print Assumptions C16_gate_exact.
+Print Assumptions C16_floor_ste_on_fractions.
+Print Assumptions C16_ne16_tiling_mono.
+Print Assumptions C16_ne16_latency_mono.
+Print Assumptions C16_ne16_latency_pos.
+Print Assumptions C16_ne16_conv2d_generic_mono.
+Print Assumptions C16_ne16_conv2d_dw_mono.
+Print Assumptions C16_ne16_linear_mono.
+Print Assumptions C16_ne16_conv2d_generic_pos.
+Print Assumptions C16_ne16_conv2d_dw_pos.
+Print Assumptions C16_ne16_linear_pos.
+Print Assumptions C16_ne16_reject.
+Print Assumptions C16_diana_unroll_antitone.
+Print Assumptions C16_diana_conv2d_mono.
+Print Assumptions C16_diana_linear_mono.
+Print Assumptions C16_diana_conv2d_pos.
+Print Assumptions C16_diana_linear_pos.
+Print Assumptions C16_diana_reject.
